@@ -125,7 +125,7 @@ func exec(op string) string {
 		case e[0] == 'K' && len(f) == 2:
 			r = v.HeadersSplit(id, f[1] == "1")
 		case e[0] == 'H' && len(f) == 3:
-			if !validKind(f[2]) {
+			if !validKind(f[2]) || (f[2] == "head" && f[1] == "1") { // a served HEAD request would need its own response shape
 				return "bad-op"
 			}
 			r = v.Headers(id, f[1] == "1", f[2])
@@ -320,10 +320,13 @@ func gen(r *vh.Rand) string {
 				if r.Chance(1, 12) {
 					kind = r.Pick("bad", "nometh", "nopath", "scheme", "status", "badpath", "connectbad", "invupper", "invafter", "invunk", "invdup", "invval", "invmix")
 				} else if r.Chance(1, 10) {
-					kind = r.Pick("connect", "teok", "teempty", "te", "te2", "ch0", "ch1", "ch2", "ch3", "ch4", "head")
+					kind = r.Pick("connect", "teok", "teempty", "te", "te2", "ch0", "ch1", "ch2", "ch3", "ch4")
+					if end == 0 && r.Chance(1, 4) {
+						kind = "head"
+					}
 				}
 				used = append(used, id)
-				if kind == "ok" || strings.HasPrefix(kind, "cl") || kind == "connect" || kind == "teok" || kind == "teempty" || (kind == "head" && end == 1) {
+				if kind == "ok" || strings.HasPrefix(kind, "cl") || kind == "connect" || kind == "teok" || kind == "teempty" {
 					alive = append(alive, id)
 					if end == 0 {
 						open = append(open, id)
@@ -384,7 +387,7 @@ func gen(r *vh.Rand) string {
 		}
 		switch x := r.Intn(20); {
 		case x < 6:
-			evs = append(evs, fmt.Sprintf("H%d:%d:%s", any(), r.Intn(2), r.Pick("ok", "ok", "tr", "bad", "cl3", "cl0", "invval", "ch0", "te", "head", "connect")))
+			evs = append(evs, fmt.Sprintf("H%d:%d:%s", any(), r.Intn(2), r.Pick("ok", "ok", "tr", "bad", "cl3", "cl0", "invval", "ch0", "te", "connect")))
 		case x < 11:
 			evs = append(evs, fmt.Sprintf("D%d:%d:%d", any(), []int{0, 1, 3, 5, 7}[r.Intn(5)], r.Intn(2)))
 		case x < 13:
